@@ -23,6 +23,10 @@ func register(id string, f func(p *Prog, r *Report)) { registry[id] = f }
 func init() {
 	register("C09", checkC09)
 	register("C10", checkC10)
+	register("C11", checkC11)
+	register("C12", checkC12)
+	register("C13", checkC13)
+	register("C14", checkC14)
 }
 
 func main() {
